@@ -42,29 +42,29 @@ class ClassTable(object):
         return s
 
     def const(self, dotted):
-        """z3 constant for a class; registers hierarchy axioms on first use."""
+        """z3 constant for a class; registers hierarchy axioms on first use (O(1) axioms per
+        class: its exact ancestor set, the upward closure for unknown subclasses, and one
+        global distinctness axiom)."""
         c = self.known.get(dotted)
         if c is not None:
             return c
         c = Z.const('C:' + dotted, Cls)
-        for other, oc in self.known.items():
-            Z.AXIOMS.add('cls-neq:%s:%s' % (dotted, other), c != oc)
-            if dotted in self.refl and other in self.refl:
-                Z.AXIOMS.add('sub:%s<:%s' % (dotted, other),
-                             issub(c, oc) == z3.BoolVal(self.static_sub(dotted, other)))
-                Z.AXIOMS.add('sub:%s<:%s' % (other, dotted),
-                             issub(oc, c) == z3.BoolVal(self.static_sub(other, dotted)))
         self.known[dotted] = c
-        Z.AXIOMS.add('sub-refl:' + dotted, issub(c, c))
+        x = z3.Const('c!x', Cls)
         if dotted in self.refl:
-            x = z3.Const('c!x', Cls)
-            mro = self.refl[dotted]['mro']
-            # anything below this class is below each of its bases
+            mro = [b for b in self.refl[dotted]['mro']]
+            anc = [self.const(b) for b in mro if b != dotted]
+            # exactly the reflected ancestors (closed world for *known* classes)
+            Z.AXIOMS.add('ancestors:' + dotted,
+                         z3.ForAll([x], issub(c, x) == z3.Or(*([x == c] + [x == a for a in anc])),
+                                   patterns=[issub(c, x)]))
             for b in mro[1:]:
                 if b == 'builtins.object':
                     continue
-                bc = self.const(b)
                 Z.AXIOMS.add('sub-up:%s->%s' % (dotted, b),
-                             z3.ForAll([x], z3.Implies(issub(x, c), issub(x, bc)),
+                             z3.ForAll([x], z3.Implies(issub(x, c), issub(x, self.known[b])),
                                        patterns=[issub(x, c)]))
+        else:
+            Z.AXIOMS.add('sub-refl:' + dotted, issub(c, c))
+        Z.AXIOMS.replace('cls-distinct', z3.Distinct(*self.known.values()) if len(self.known) > 1 else Z.TRUE)
         return c
